@@ -166,8 +166,8 @@ def _task(args):
     vios = []
     st = {"cases": 0, "encoded": 0, "rejected": 0, "nontrivial": 0, "defs": 0, "skipped_defs": 0}
     sample = None
-    for di in idxs:
-        defn = db.defs[di]
+    def exercise(defn, enc, k, tag=""):
+        nonlocal sample
         base_assign = payloads.base_assignment(defn, "mid")
         p, n = payloads.build(defn, base_assign)
         try:
@@ -176,7 +176,7 @@ def _task(args):
             base_msg = None
         if base_msg is None or base_msg.id != defn.id:
             st["skipped_defs"] += 1
-            continue
+            return
         try:
             base_q = payload_of(enc.encode_actisense(base_msg))
             base_int = int.from_bytes(base_q, "little")
@@ -195,7 +195,7 @@ def _task(args):
             if per_def <= 30:
                 vios.append({"kind": kind, "facts": dict(facts, definition=defn.id),
                              "signature": f"{kind}:{defn.pgn}:{defn.id}:{facts.get('field')}:{facts.get('label_class')}",
-                             "detail": f"[PGN {defn.pgn} {defn.id}] {detail}", "case": dict(case, pgn=defn.pgn, definition=defn.id)})
+                             "detail": f"[PGN {defn.pgn} {defn.id}{tag}] {detail}", "case": dict(case, pgn=defn.pgn, definition=defn.id)})
 
         # each field removed
         for i, f in enumerate(defn.fields):
@@ -287,6 +287,21 @@ def _task(args):
                              f"{case['set']}: {why}; payload {q.hex()}", case)
                 if sample is None:
                     sample = {"pgn": defn.pgn, "definition": defn.id, "set": case["set"], "payload_hex": q.hex()}
+
+    for di in idxs:
+        exercise(db.defs[di], enc, k)
+    # history independence: the definitions that share a PGN, one after the other on ONE encoder, in database
+    # order and in reverse (what an encoder produces for a message must not depend on what it encoded before)
+    by_pgn = {}
+    for di in idxs:
+        by_pgn.setdefault(db.defs[di].pgn, []).append(db.defs[di])
+    for pgn, ds in by_pgn.items():
+        if len(ds) < 2:
+            continue
+        for order, label in ((ds, "forward"), (ds[::-1], "backward")):
+            shared = NMEA2000Encoder()
+            for d in order:
+                exercise(d, shared, 1, f", {label} pass over the PGN's definitions on one encoder")
     return st, vios, sample
 
 
@@ -294,11 +309,22 @@ def run(ctx):
     db = refdb.db()
     enc_defs = [d.idx for d in db.defs if d.encodable]
     k = 3 if ctx.thorough else 2
-    order = sorted(enc_defs, key=lambda i: -len(db.defs[i].fields))
+    groups = {}
+    for i in enc_defs:
+        groups.setdefault(db.defs[i].pgn, []).append(i)     # definitions sharing a PGN stay together (history pass)
     nb = 131 if ctx.thorough else 48
     buckets = [[] for _ in range(nb)]
-    for j, i in enumerate(order):
-        buckets[j % nb].append(i)
+    weight = [0] * nb
+    for g in sorted(groups.values(), key=lambda g: -sum(len(db.defs[i].fields) ** 2 for i in g)):
+        if len(g) > 12:
+            # a PGN with dozens of definitions: split into runs of 12 so that no worker carries them all
+            parts = [g[j:j + 12] for j in range(0, len(g), 12)]
+        else:
+            parts = [g]
+        for part in parts:
+            j = weight.index(min(weight))
+            buckets[j] += part
+            weight[j] += sum(len(db.defs[i].fields) ** 2 for i in part)
     results = common.pmap(_task, [(b, k) for b in buckets if b])
     vios, samples = [], []
     tot = {"cases": 0, "encoded": 0, "rejected": 0, "nontrivial": 0, "defs": 0, "skipped_defs": 0, "base_not_encodable": 0}
@@ -315,7 +341,7 @@ def run(ctx):
                 "non-trivial = a value assignment (not a removal)",
         "samples": samples, "encodable_definitions_exercised": tot["defs"], "definitions_skipped_no_base": tot["skipped_defs"], "definitions_whose_base_does_not_encode": tot["base_not_encodable"],
         "payloads_produced": tot["encoded"], "rejected_with_ValueError": tot["rejected"],
-        "bound_completed": f"k={k} fields at a time over the value alphabet; every field removed once", "exhaustive": True,
+        "bound_completed": f"k={k} fields at a time over the value alphabet; every field removed once; k=1 again for the definitions sharing a PGN on one encoder, forward and backward", "exhaustive": True,
     }
     return {"coverage": cov, "violations": vios,
             "assumptions": ["a value is requested by setting value and raw_value as the decoder would report them",
